@@ -2,12 +2,16 @@
 SPEC = {
     "bins": [
         {"name": "c08", "pkg": "./zz_verif/c08", "run": ".", "shards": {"quick": 1, "thorough": 16}},
+        # the concurrent plan (independent pairs, one goroutine each) once more under the race detector
+        {"name": "c08race", "pkg": "./zz_verif/c08", "run": "^TestC08Concurrent$", "race": True, "shards": {"quick": 1, "thorough": 4}},
     ],
     "rule": "case = one operation history (rapid state machine, mean 40 steps quick / 200 thorough) over a sealer and its opener for one AEAD, started at a drawn "
             "sequence number (0, 1, 2^(8k)-d, 2^96-1-d, random with 0xff suffix) by rewriting the seq field of the marshalled contexts; several contexts per history, "
             "each with its own model counter: the pair moved to the start value, the fresh pair handed out by Sender/Receiver (seq 0), hand-made contexts of the two other AEADs "
             "with the same master key and base nonce, forks (marshal->unmarshal keeping the original) and further openers from the same Receiver with the same enc; "
             "actions Seal, Open next, Open stale/future/garbage/other-AEAD/forged-neighbour/forged-current, Export, restore, fork, setup-again. "
+            "Plus a concurrent plan: 12 independent sealer/opener pairs (fresh and restored at structured sequence numbers, all AEADs), one goroutine per pair, 20 000 (thorough 100 000) messages each, "
+            "every ciphertext compared with the independent AEAD under base_nonce XOR (start+i) and opened by the pair's opener; also built with -race. "
             "non-trivial = the history contains a failed open followed by a successful one, or an increment that carries over a byte boundary, or reaches the maximum "
             "sequence number, or a restore of the sealer between two seals; distinct by FNV-64 of (action log incl. start, key, base_nonce)",
     "assumptions": COMMON_ASSUME + [
